@@ -1872,7 +1872,36 @@ func (bp *boundsProver) grownWithin(S, x ssa.Value, at ssa.Instruction, seen map
 		}
 		return true
 	case *ssa.Call:
-		if !isBuiltin(w, "append") || len(w.Call.Args) != 2 {
+		if !isBuiltin(w, "append") {
+			// S is what a helper of the module built: the same argument inside the helper, with the parameter that
+			// receives x standing for x (every list the helper can return starts empty and grows within that parameter)
+			h := w.Call.StaticCallee()
+			if h == nil || w.Call.IsInvoke() || len(h.Blocks) == 0 || h.Signature.Results().Len() != 1 || len(h.Params) != len(w.Call.Args) || fnPkgPath(h) != fnPkgPath(w.Parent()) {
+				return false
+			}
+			k := -1
+			for i, a := range w.Call.Args {
+				if a == x || bp.sameSeq(a, x) {
+					k = i
+				}
+			}
+			if k < 0 {
+				return false
+			}
+			n := 0
+			for _, hb := range h.Blocks {
+				ret, isRet := hb.Instrs[len(hb.Instrs)-1].(*ssa.Return)
+				if !isRet {
+					continue
+				}
+				n++
+				if !bp.grownWithin(ret.Results[0], h.Params[k], ret, map[ssa.Value]bool{}, d+1) {
+					return false
+				}
+			}
+			return n > 0
+		}
+		if len(w.Call.Args) != 2 {
 			return false
 		}
 		sl, ok := w.Call.Args[1].(*ssa.Slice)
